@@ -478,7 +478,7 @@ def explain(links, w, act, drop_version, spec):
         alts.append(("c02-non-edge-order-counted-from-its-own-atom", lambda: expected_sequential(links, w, shifted=True)))
     if any(lk["non_edges"] or lk["patterns"] for lk in links):
         alts.append(("c02-vetoes-consult-evolving-molecule", lambda: expected_sequential(links, w)))
-    if spec["syntax"] == "mixed" and not spec.get("itp_first", True):
+    if spec["syntax"] == "mixed" and ff_before_itp(spec):
         flat = [dict(lk, inters=[(t, k, p_, None) for t, k, p_, _ in lk["inters"]]) for lk in links]
         alts.append(("c02-explicit-version-rewritten-when-itp-read-after-ff", lambda: expected_for(flat, w, act["edges"])[0]))
     for key, fn in alts:
@@ -605,8 +605,25 @@ def real():
     return _REAL
 
 
+def file_order(spec):
+    """the order in which the files of a non-"ff" world are given to the reader: tokens "itp" (every monomer .itp, in the
+    order of BLOCKS), "itp:<name>" (one monomer .itp), "ff" (links.ff = spec["links"]), "ff2" (links2.ff = spec["links2"])"""
+    if spec.get("file_order"):
+        return list(spec["file_order"])
+    return ["itp", "ff"] if spec.get("itp_first", True) else ["ff", "itp"]
+
+
+def ff_before_itp(spec):
+    """is some .ff link file read before some monomer .itp (the .itp's finalisation then sees those links)?"""
+    toks = file_order(spec)
+    ff = [i for i, t in enumerate(toks) if t.startswith("ff") and spec.get({"ff": "links", "ff2": "links2"}[t])]
+    itp = [i for i, t in enumerate(toks) if t.startswith("itp")]
+    return bool(ff and itp and min(ff) < max(itp))
+
+
 def write_ff(dirname, spec, order=None):
-    """spec: {"syntax": "ff"|"itp"|"mixed", "links": [...], "dangling": {"A": [...], "B": [...]}, "itp_first": bool}
+    """spec: {"syntax": "ff"|"itp"|"mixed", "links": [...], "dangling": {"A": [...], "B": [...]}, "itp_first": bool,
+              "links2": [...] (a second link file), "file_order": [tokens, see file_order]}
     returns the list of paths in the order they are given to the reader"""
     os.makedirs(dirname, exist_ok=True)
     links = spec.get("links", [])
@@ -621,30 +638,40 @@ def write_ff(dirname, spec, order=None):
                 fh.write("\n" + render_link(lk))
         paths = [p]
     else:
+        written = {}
         for name in BLOCKS:
             p = os.path.join(dirname, "%s.itp" % name)
             with open(p, "w") as fh:
                 fh.write(render_itp(name, spec.get("dangling", {}).get(name, [])))
-            paths.append(p)
-        if links:
-            p = os.path.join(dirname, "links.ff")
-            with open(p, "w") as fh:
-                for lk in links:
-                    fh.write("\n" + render_link(lk))
-            paths = paths + [p] if spec.get("itp_first", True) else [p] + paths
+            written["itp:" + name] = [p]
+        written["itp"] = [written["itp:" + name][0] for name in BLOCKS]
+        for tok, fname, lks in (("ff", "links.ff", links), ("ff2", "links2.ff", spec.get("links2", []))):
+            if lks:
+                p = os.path.join(dirname, fname)
+                with open(p, "w") as fh:
+                    for lk in lks:
+                        fh.write("\n" + render_link(lk))
+                written[tok] = [p]
+        for tok in file_order(spec):
+            paths += written.get(tok, [])
     return paths
 
 
 def spec_links(spec, order=None):
-    """the link definitions of a world in their order of definition (dangling ones as their equivalent links)"""
+    """the link definitions of a world in their order of definition = the order in which the files are read and, inside
+    a file, written (dangling ones as their equivalent links, where their monomer file is read)"""
     links = list(spec.get("links", []))
     if order is not None:
         links = [links[i] for i in order]
-    dl = []
     if spec["syntax"] != "ff":
+        defined = {"ff": links, "ff2": list(spec.get("links2", [])), "itp": []}
         for name in BLOCKS:
-            dl += dangling_as_links(name, spec.get("dangling", {}).get(name, []))
-        return (dl + links) if spec.get("itp_first", True) else (links + dl)
+            defined["itp:" + name] = dangling_as_links(name, spec.get("dangling", {}).get(name, []))
+            defined["itp"] = defined["itp"] + defined["itp:" + name]
+        out = []
+        for tok in file_order(spec):
+            out += defined[tok]
+        return out
     return links
 
 
@@ -655,7 +682,12 @@ def text_of(spec, order=None):
     d = {"syntax": spec["syntax"], "links": [render_link(l) for l in links]}
     if spec["syntax"] != "ff":
         d["dangling"] = {k: [list(map(str, x)) for x in v] for k, v in spec.get("dangling", {}).items()}
-        d["itp_first"] = spec.get("itp_first", True)
+        if spec.get("links2"):
+            d["links2"] = [render_link(l) for l in spec["links2"]]
+        if spec.get("file_order"):
+            d["file_order"] = list(spec["file_order"])       # "itp" = A.itp, B.itp; "ff" = `links`; "ff2" = `links2`
+        else:
+            d["itp_first"] = spec.get("itp_first", True)
     return d
 
 
@@ -681,7 +713,8 @@ def c02_job(args):
     """one force field (possibly in both definition orders) x all its residue-graph worlds"""
     jid, spec, world_sets, scratch, both_orders, check_windows = args
     R = real()
-    out = {"evaluations": 0, "nontrivial": 0, "illposed": 0, "violations": [], "samples": [], "counts": {}}
+    out = {"evaluations": 0, "nontrivial": 0, "illposed": 0, "violations": [], "samples": [], "counts": {},
+           "overridden": 0, "partial": 0, "family_sample": None}
     drop_version = spec["syntax"] != "ff"
     orders = [None]
     if both_orders and len(spec.get("links", [])) == 2:
@@ -725,6 +758,13 @@ def c02_job(args):
                     out["nontrivial"] += 1
                     if len(out["samples"]) < 1 and len(w["edges"]) >= 2:
                         out["samples"].append(dict(inputs, applied=n_applied, rejected=n_rejected))
+                if spec.get("family") == "multi-type":
+                    n_over, n_kept = override_profile(links, w)
+                    out["overridden"] += bool(n_over)
+                    if n_over and n_kept:
+                        out["partial"] += 1
+                        if out["family_sample"] is None and w["n"] >= 4:
+                            out["family_sample"] = dict(inputs, family=spec["tag"], redefined_by_a_later_link=n_over, only_defined_by_the_first_link=n_kept)
                 texts = diff(exp, act, drop_version)
                 if texts:
                     if any(lk["non_edges"] for lk in links) and not consistent_exists(links, w):
@@ -1002,6 +1042,153 @@ def replace_veto_family(thorough):
     return out
 
 
+# ----------------------------------------------------------------------------------------------------------------
+# family "same atoms, several interaction types, later redefinition"
+# ----------------------------------------------------------------------------------------------------------------
+# an atom tuple as (order, atom name) per position, and the 1-based indices of the same tuple in a monomer .itp
+MT_TUPLES = {"YX": ([(0, "Y"), (1, "X")], (2, 3)),
+             "YXY": ([(0, "Y"), (1, "X"), (1, "Y")], (2, 3, 4)),
+             "YXX": ([(0, "Y"), (1, "X"), (2, "X")], (2, 3, 5)),
+             "XYXY": ([(0, "X"), (0, "Y"), (1, "X"), (1, "Y")], (1, 2, 3, 4))}
+# the interaction types that are written on ONE atom tuple (bond | constraint are the #ifdef FLEXIBLE alternatives)
+MT_SETS = {"bc": ("YX", ("bonds", "constraints")),
+           "bcp": ("YX", ("bonds", "constraints", "pairs")),
+           "av": ("YXY", ("angles", "virtual_sites2")),
+           "av3": ("YXX", ("angles", "virtual_sites2")),
+           "dr": ("XYXY", ("dihedrals", "dihedral_restraints"))}
+
+
+def mt_params(t, slot):
+    """parameters that tell who defined the interaction: slot 1 = the first link (.ff link / dangling of A), 2 = dangling
+    of B, 5 = the link defined later, 6 = a third link"""
+    return {"bonds": ("1", "0.4%d" % slot, "4%d0" % slot), "constraints": ("1", "0.5%d" % slot), "pairs": ("1", "0.6%d" % slot, "6%d" % slot),
+            "angles": ("1", "10%d" % slot, "1%d" % slot), "virtual_sites2": ("1", "0.%d" % slot),
+            "dihedrals": ("1", "18%d" % slot, "%d" % slot, "2"), "dihedral_restraints": ("1", "9%d" % slot, "0", "%d" % slot)}[t]
+
+
+def mt_link(tup, types, slot, resn, link_level=None, tag=""):
+    """.ff link with one interaction of every type in `types` on the atom tuple `tup`; resn = residue-name spec per order"""
+    pos, _ = MT_TUPLES[tup]
+    atoms, keys = [], []
+    for o, nm in pos:
+        a = atom(o, nm, None if link_level is not None else resn[o])
+        keys.append(a["key"])
+        atoms.append(a)
+    return link(atoms, [(t, keys, mt_params(t, slot), None) for t in types], link_resname=link_level, tag=tag)
+
+
+def mt_dangling(tup, types, slot, between=()):
+    """the same as dangling interactions of a monomer .itp; `between`: further dangling interactions listed between them"""
+    idx = MT_TUPLES[tup][1]
+    out = [(types[0], idx, mt_params(types[0], slot))] + list(between)
+    return out + [(t, idx, mt_params(t, slot)) for t in types[1:]]
+
+
+def mt_resn(tup, thorough):
+    """residue-name restrictions of the later link (per order), so that it matches some residue windows only"""
+    if tup == "YXX":
+        forms = [(AB, "B", AB), ("A", AB, AB), (AB, AB, AB), ("B", "B", "B")]
+    else:
+        forms = [("B", "B"), ("A", "B"), ("A", "A"), (AB, AB), ("B", AB)]
+    return forms if thorough else forms[:2]
+
+
+def multi_type_family(thorough):
+    """force fields in which a link carries two (three) interaction TYPES on one atom tuple and a link defined LATER
+    (in the same file, in a second file, or in the .ff read after the monomer .itp) defines one / the other / all of these
+    interactions again for some residue names.  returns [spec]"""
+    out = []
+
+    def spec(dangling, links, order, links2=(), tag=""):
+        out.append({"syntax": "mixed", "dangling": dangling, "links": list(links), "links2": list(links2), "file_order": list(order),
+                    "family": "multi-type", "tag": tag})
+
+    def later(ms, kind, resn, slot=5):
+        tup, types = MT_SETS[ms]
+        redefined = types[:2] if kind == "both" else (types[kind],)
+        return mt_link(tup, redefined, slot, resn, tag="later %s %s %s" % (ms, kind, resn))
+
+    def generic(ms, link_level=False):
+        tup, types = MT_SETS[ms]
+        n = 1 + max(o for o, _ in MT_TUPLES[tup][0])
+        return mt_link(tup, types, 1, (AB,) * n, link_level=AB if link_level else None, tag="first %s" % ms)
+
+    def dang(ms, names="AB", between=()):
+        tup, types = MT_SETS[ms]
+        return {nm: mt_dangling(tup, types, 1 + "AB".index(nm), between) for nm in names}
+
+    if not thorough:
+        spec({}, [generic("bc", True), later("bc", 0, ("B", "B"))], ["ff", "itp"], tag="bc ff, bond again for B-B, same file, .itp read after")
+        spec({}, [generic("bc")], ["ff", "itp", "ff2"], [later("bc", 1, ("A", "A"))], tag="bc ff, constraint again for A-A, second file")
+        spec(dang("bc"), [mt_link("YX", ("bonds",), 5, None, link_level="A", tag="later bc 0 linkres A")], ["itp", "ff"], tag="bc dangling, bond again for A")
+        spec(dang("bc"), [later("bc", "both", (AB, AB))], ["itp:A", "ff", "itp:B"], tag="bc dangling of A, both again for any, dangling of B")
+        spec({}, [generic("bcp"), later("bcp", "both", ("A", "B"))], ["itp", "ff"], tag="bcp ff read after .itp, bond+constraint again for A->B")
+        spec({}, [generic("av"), later("av", 0, ("B", AB))], ["ff", "itp"], tag="av ff, angle again for B->any")
+        spec(dang("av3"), [later("av3", 1, (AB, "B", AB))], ["itp", "ff"], tag="av3 dangling, second type again around B")
+        spec({}, [mt_link("YX", ("bonds",), 1, (AB, AB), tag="first bond only"), later("bc", "both", ("B", "B"))], ["ff", "itp"],
+             tag="single-type first, bc later for B-B")
+        return out
+    for ms, (tup, types) in MT_SETS.items():
+        main = ms == "bc"
+        forms = mt_resn(tup, True)
+        for kind in (0, 1, "both"):
+            for resn in (forms if main else forms[:2]):
+                lt = later(ms, kind, resn)
+                # first link as a .ff link
+                spec({}, [generic(ms), lt], ["ff", "itp"], tag="%s ff same file, .itp after" % ms)
+                spec({}, [generic(ms)], ["ff", "itp", "ff2"], [lt], tag="%s ff, .itp, later link in a second file" % ms)
+                if main:
+                    spec({}, [generic(ms), lt], ["itp", "ff"], tag="bc .itp, ff same file")
+                    spec({}, [generic(ms)], ["ff", "ff2", "itp"], [lt], tag="bc ff, second file, .itp")
+                    spec({}, [generic(ms, True), lt], ["ff", "itp"], tag="bc ff (link-level resname) same file, .itp after")
+                # first link as dangling interactions of the monomers
+                spec(dang(ms), [lt], ["itp", "ff"], tag="%s dangling, later link in .ff" % ms)
+                if main:
+                    spec(dang(ms), [lt], ["ff", "itp"], tag="bc .ff first, dangling defined last")
+                    spec(dang(ms), [lt], ["itp:A", "ff", "itp:B"], tag="bc dangling A, .ff, dangling B")
+                    spec(dang(ms, "A"), [lt], ["itp", "ff"], tag="bc dangling of A only, later link in .ff")
+                    spec(dang(ms, "AB", between=[("angles", (1, 2, 3), P["ang"])]), [lt], ["itp", "ff"], tag="bc dangling with an angle listed between")
+    for resn in mt_resn("YX", True)[:3]:
+        # the single-type link first, the several-types link later
+        spec({}, [mt_link("YX", ("bonds",), 1, (AB, AB), tag="first bond only"), later("bc", "both", resn)], ["ff", "itp"], tag="single-type first, bc later")
+        spec({"A": [("constraints", (2, 3), mt_params("constraints", 1))], "B": [("constraints", (2, 3), mt_params("constraints", 2))]},
+             [later("bcp", "both", resn)], ["itp", "ff"], tag="dangling constraint first, bc later")
+        # three definitions: generic, specific (one type), generic again (the other type) in a second file
+        spec({}, [generic("bc"), later("bc", 0, resn)], ["ff", "itp", "ff2"], [later("bc", 1, (AB, AB), slot=6)], tag="three links, .itp in between")
+        spec(dang("bc"), [later("bc", 0, resn)], ["itp", "ff", "ff2"], [later("bc", "both", ("A", AB), slot=6)], tag="dangling + two later links")
+    return out
+
+
+def chain_worlds(thorough):
+    """linear chains in resid order with mixed residue names: thorough every name assignment over {A,B} for 2..6
+    residues, quick ten of them (every length)"""
+    if thorough:
+        seqs = ["".join(x) for n in range(2, 7) for x in itertools.product("AB", repeat=n)]
+    else:
+        seqs = ["AB", "BB", "AAB", "BBA", "ABBA", "AABB", "AABBB", "BABBA", "AABBBA", "BBBAAB"]
+    return [{"n": len(q), "edges": [(i, i + 1) for i in range(len(q) - 1)], "names": list(q), "resids": list(range(1, len(q) + 1)), "labels": {}}
+            for q in seqs]
+
+
+def override_profile(links, w):
+    """for the worlds of the multi-type family (no vetoes: every static candidate is applied):
+    overridden = number of (type, atoms, version) defined by instances of more than one link definition,
+    kept = number of those defined by one link only although the same link shares that atom tuple between several types"""
+    owners, shared = {}, set()
+    for li, lk in enumerate(links):
+        cands, _ = static_candidates(lk, w)
+        for c in cands:
+            per_atoms = {}
+            for t, keys, _, v in lk["inters"]:
+                atoms = tuple(c["match"][k] for k in keys)
+                owners.setdefault((t, atoms, v or 1), set()).add(li)
+                per_atoms.setdefault(atoms, set()).add(t)
+            shared |= {(t, atoms) for atoms, ts in per_atoms.items() if len(ts) > 1 for t in ts}
+    overridden = sum(1 for k, o in owners.items() if len(o) > 1)
+    kept = sum(1 for k, o in owners.items() if len(o) == 1 and (k[0], k[1]) in shared)
+    return overridden, kept
+
+
 ITP_DANGLING = [
     ("bond Y+X", [("bonds", (2, 3), P["a"])]),
     ("bond Y+Y", [("bonds", (2, 4), P["a"])]),
@@ -1055,6 +1242,9 @@ def c02_specs(thorough):
                     [link([atom(0, "Y", AB), atom(1, "X", AB)], [("bonds", ["Y", "+X"], P["d"], 2)], tag="only v2")]):
             specs.append(({"syntax": "mixed", "dangling": {"A": [("bonds", (2, 3), P["a"])]}, "links": lks, "itp_first": itp_first}, ("plain",), False))
             specs.append(({"syntax": "mixed", "dangling": {}, "links": lks, "itp_first": itp_first}, ("plain",), False))
+    # several interaction types on one atom tuple, one of them defined again by a later link (linear chains, mixed names)
+    for spec in multi_type_family(thorough):
+        specs.append((spec, ("chains",), False))
     return specs
 
 
@@ -1068,6 +1258,8 @@ def run_c02(ctx, res):
         paths = {k: write_world_files(scratch, v, k) for k, v in sets.items()}
         small = [i for i, w in enumerate(sets["plain"]) if w["n"] <= 3]
         sets["small"], paths["small"] = [sets["plain"][i] for i in small], [paths["plain"][i] for i in small]
+        sets["chains"] = chain_worlds(ctx.thorough)
+        paths["chains"] = write_world_files(scratch, sets["chains"], "chains")
         specs = c02_specs(ctx.thorough)
         jobs = []
         for jid, (spec, names, both) in enumerate(specs):
@@ -1077,6 +1269,7 @@ def run_c02(ctx, res):
         counts, illposed = {}, 0
         viols = {}
         fam = [o for (spec, _, _), o in zip(specs, outs) if spec.get("family") == "replace-veto"]
+        mt = [o for (spec, _, _), o in zip(specs, outs) if spec.get("family") == "multi-type"]
         for o in outs:
             res.evaluations += o["evaluations"]
             res.nontrivial += o["nontrivial"]
@@ -1088,6 +1281,10 @@ def run_c02(ctx, res):
             for s in o["samples"]:
                 if len(res.samples) < 3:
                     res.samples.append(s)
+        for o in mt:
+            if o["family_sample"] is not None:
+                res.samples.append(o["family_sample"])
+                break
         # at most 5 recorded: one per class first (smallest input first), then fill
         for k in viols:
             viols[k].sort(key=lambda v: len(json.dumps(v[2], default=str)))
